@@ -9,7 +9,7 @@
    clause removed from the Go source disappears from the model too (and invalid_never_accepted
    stops being provable).
 
-   Faithfulness notes (the code as it is, after the fix commits 543d12e, 2b7647d, 953cbe1 in /repo):
+   Faithfulness notes (the code as it is, after the fix commits 543d12e, d9b573b, d9b573b in /repo):
    * SetReplicationConfig edits a COPY of the default rule and hands it to SetRule, which now sees a
      change and saves it (one rule write, faultable); nothing served is touched before SetRule and
      Persist have succeeded; the roll-back puts count and labels back through a second SetRule.
